@@ -6,7 +6,7 @@
    a table of sound states, a history accepted by the predicate HP). *)
 From Coq Require Import Relations.Relation_Operators Relations.Operators_Properties.
 From Ruler Require Import Tactics Bytes AList RuleSyntax Parser TopoSort World Cmdlang Work Build Ops Inv Acts
-  BuildSpec Ideal BytesFacts InvFacts BuildFacts C01Script C01Hist C01Build C01Plan C01Facts C11Facts ActsSound.
+  BuildSpec Ideal BytesFacts InvFacts TableFrame BuildFacts C01Script C01Hist C01Build C01Plan C01Facts C11Facts ActsSound.
 Local Open Scope N_scope.
 
 Section ActsGood.
@@ -256,12 +256,31 @@ Section ActsGood.
       - apply IH. intros r wr h Hin. apply Hhp. right. exact Hin.
     Qed.
 
+    (* the leaves run from the world in which main has saved what the workers leave of the table *)
     Lemma st_leaves_rs_inv (w w1 : world) t pack :
-      disk_inv w -> init_dir T w = Ok (w1, t) -> rs_inv w (st_leaves T teqb hc w1 t pack).
+      disk_inv w -> init_dir T w = Ok (w1, t) ->
+      rs_inv w (st_leaves T teqb hc (write_table T w1 (table_rest T hc t pack)) t pack).
     Proof.
       intros Hinv Hi. destruct (InvProofs.init_dir_rs_inv T teqb hc teqb_spec _ _ _ Hinv Hi) as [Hs1 Ht1].
+      pose proof (inv_steps _ _ Hinv Hs1) as Hinv1.
+      assert (steps w1 (write_table T w1 (table_rest T hc t pack))) as Hsw.
+      { apply rt_step. apply SWriteTable. apply (InvProofs.table_rest_ok T teqb hc w1 t pack Ht1). }
       apply (InvProofs.run_leaves_inv T teqb hc teqb_spec); [exact Hinv|].
-      split; [exact Hs1|]. split; [exact Ht1|]. intros r wr [].
+      split; [eapply rt_trans; eauto|]. split; [|intros r wr []].
+      cbn [rs_world rs_table]. eapply (InvProofs.tbl_ok_steps T teqb hc teqb_spec); eauto.
+    Qed.
+
+    (* the run from the world with the saved table and the run from the world init_dir left: same results *)
+    Lemma run_nodes_early_results (w1 : world) t pack st2 :
+      run_nodes T teqb hc hl hr (st_leaves T teqb hc (write_table T w1 (table_rest T hc t pack)) t pack)
+                (p_nodes pack) = Some st2 ->
+      exists st2', run_nodes T teqb hc hl hr (st_leaves T teqb hc w1 t pack) (p_nodes pack) = Some st2' /\
+                   rs_results T st2 = rs_results T st2'.
+    Proof.
+      rewrite write_table_set_tbl, (st_leaves_st T teqb hc), (run_nodes_st T teqb hc hl hr).
+      destruct (run_nodes T teqb hc hl hr (st_leaves T teqb hc w1 t pack) (p_nodes pack)) as [st2'|];
+        cbn [option_map]; [|discriminate].
+      intro H. injection H as <-. exists st2'. split; reflexivity.
     Qed.
 
     Theorem build_acts_good (w : world) rp goal :
@@ -280,16 +299,21 @@ Section ActsGood.
       rewrite (init_acts_ok T teqb hr _ _ _ Ei).
       destruct (get_nodes T w1 rp goal) as [pack|f] eqn:Eg; [|exact I].
       pose proof (st_leaves_rs_inv _ _ _ pack Hinv Ei) as Hrs1.
+      destruct (InvProofs.init_dir_rs_inv T teqb hc teqb_spec _ _ _ Hinv Ei) as [_ Ht1].
+      cbv zeta. cbn [acts_good act_good Acts.do_act].
+      split; [apply (InvProofs.table_rest_ok T teqb hc w1 t pack Ht1)|].
+      set (w1t := write_table T w1 (table_rest T hc t pack)) in *.
       apply acts_good_app. split.
-      - apply (run_nodes_acts_good w (p_nodes pack) (st_leaves T teqb hc w1 t pack)); auto.
+      - apply (run_nodes_acts_good w (p_nodes pack) (st_leaves T teqb hc w1t t pack)); auto.
         + symmetry. apply st_leaves_world.
         + intros n p Hn Hp. apply (Hrp w1 t pack p eq_refl Eg). unfold plan_targets. apply in_flat_map. eauto.
-      - rewrite (run_nodes_acts_world T teqb hc hl hr (p_nodes pack) (st_leaves T teqb hc w1 t pack) w1)
+      - rewrite (run_nodes_acts_world T teqb hc hl hr (p_nodes pack) (st_leaves T teqb hc w1t t pack) w1t)
           by (symmetry; apply st_leaves_world).
-        destruct (run_nodes T teqb hc hl hr (st_leaves T teqb hc w1 t pack) (p_nodes pack)) as [st2|] eqn:En; [|exact I].
+        destruct (run_nodes T teqb hc hl hr (st_leaves T teqb hc w1t t pack) (p_nodes pack)) as [st2|] eqn:En; [|exact I].
         rewrite (upto_some T teqb hc hl hr _ _ _ En).
+        destruct (run_nodes_early_results _ _ _ _ En) as (st2' & En' & Hres).
         apply acts_good_app. split.
-        + apply join_acts_good. intros r wr h Hin Hh. eapply Hhp; eauto.
+        + apply join_acts_good. intros r wr h Hin Hh. rewrite Hres in Hin. eapply Hhp; eauto.
         + cbn [acts_good act_good]. split; [|exact I].
           change (rs_world T st2) with (js_world T (mk_js T (rs_world T st2) (rs_table T st2) [] [])).
           rewrite (join_acts_world T teqb hr).
